@@ -592,5 +592,454 @@ theorem along_rank1_fwd (rd : Reducer) (t : Tensor α) (n : Nat) (wt : t.WF) (hd
 
 end ext1
 
+/-- the library's equality threshold `float64EqualityThreshold = 1e-240` over ℝ -/
+noncomputable def θ : ℝ := 1 / (10 : ℝ) ^ 240
+
+theorem θ_pos : 0 < θ := by unfold θ; positivity
+
+/-- **MaxAlong / MinAlong rule over ℝ, rank-1 along dim 0**: `[g · (1 if |x_p − m| ≤ 1e-240 else 0)]_p` -/
+theorem rule_extAlong_rank1_real (bm : BMode) (H : Heap ℝ) (x y n : Nat) (g m : ℝ) (wx : (H.val x).WF)
+    (hdx : (H.val x).dims = [n]) (hy : H.val y = ⟨[], [m]⟩) :
+    evalRule bm H ⟨[], [g]⟩ (.extAlongX x y 0)
+      = .ok ⟨[n], (H.val x).data.map (fun v => g * (if |v - m| ≤ θ then 1 else 0))⟩ := by
+  rw [rule_extAlong_rank1 bm H x y n g m wx hdx hy]
+  congr 2
+  apply List.map_congr_left
+  intro v _
+  rw [C03x.near_real, mul_eq]
+  congr 1
+  unfold θ
+  by_cases h : |v - m| ≤ 1 / (10 : ℝ) ^ 240
+  · simp [Scalar.ofBool, h]
+  · simp [Scalar.ofBool, h]
+
+/-- **MaxAlong, subgradient selection** (rank-1 along dim 0, over ℝ): if the value `m` stored in the forward result is an
+    upper bound of the elements (as the maximum is), the closure returns `g` at every position with `x_p ≥ m − 1e-240`
+    — in particular at EVERY position where `x_p = m` (all tied maxima receive the full `g`, the contributions are not
+    split) — and `0` at every position with `x_p < m − 1e-240`. -/
+theorem extAlong_max_select (bm : BMode) (H : Heap ℝ) (x y n : Nat) (g m : ℝ) (wx : (H.val x).WF)
+    (hdx : (H.val x).dims = [n]) (hy : H.val y = ⟨[], [m]⟩) (hub : ∀ v ∈ (H.val x).data, v ≤ m) :
+    evalRule bm H ⟨[], [g]⟩ (.extAlongX x y 0)
+        = .ok ⟨[n], (H.val x).data.map (fun v => if m - θ ≤ v then g else 0)⟩ ∧
+      (∀ v : ℝ, v = m → (if m - θ ≤ v then g else 0) = g) ∧
+      (∀ v : ℝ, v < m - θ → (if m - θ ≤ v then g else 0) = 0) := by
+  refine ⟨?_, ?_, ?_⟩
+  · rw [rule_extAlong_rank1_real bm H x y n g m wx hdx hy]
+    congr 2
+    apply List.map_congr_left
+    intro v hv
+    have hle := hub v hv
+    have habs : |v - m| = m - v := by rw [abs_of_nonpos (by linarith)]; ring
+    rw [habs]
+    by_cases h : m - θ ≤ v
+    · rw [if_pos h, if_pos (by linarith), mul_one]
+    · rw [if_neg h, if_neg (by intro h'; apply h; linarith), mul_zero]
+  · intro v hv
+    rw [if_pos (by rw [hv]; linarith [θ_pos])]
+  · intro v hv
+    rw [if_neg (by linarith)]
+
+/-- **MinAlong, subgradient selection**: symmetric — `g` where `x_p ≤ m + 1e-240` (every tied minimum), `0` above -/
+theorem extAlong_min_select (bm : BMode) (H : Heap ℝ) (x y n : Nat) (g m : ℝ) (wx : (H.val x).WF)
+    (hdx : (H.val x).dims = [n]) (hy : H.val y = ⟨[], [m]⟩) (hlb : ∀ v ∈ (H.val x).data, m ≤ v) :
+    evalRule bm H ⟨[], [g]⟩ (.extAlongX x y 0)
+        = .ok ⟨[n], (H.val x).data.map (fun v => if v ≤ m + θ then g else 0)⟩ ∧
+      (∀ v : ℝ, v = m → (if v ≤ m + θ then g else 0) = g) ∧
+      (∀ v : ℝ, m + θ < v → (if v ≤ m + θ then g else 0) = 0) := by
+  refine ⟨?_, ?_, ?_⟩
+  · rw [rule_extAlong_rank1_real bm H x y n g m wx hdx hy]
+    congr 2
+    apply List.map_congr_left
+    intro v hv
+    have hle := hlb v hv
+    have habs : |v - m| = v - m := abs_of_nonneg (by linarith)
+    rw [habs]
+    by_cases h : v ≤ m + θ
+    · rw [if_pos h, if_pos (by linarith), mul_one]
+    · rw [if_neg h, if_neg (by intro h'; apply h; linarith), mul_zero]
+  · intro v hv
+    rw [if_pos (by rw [hv]; linarith [θ_pos])]
+  · intro v hv
+    rw [if_neg (by linarith)]
+
+/-- **MaxAlong(0) of a vector, forward and backward together, on the Model's ℝ instance**: the forward call stores
+    `M = Tensor.max x` (a left fold from the instance's `negInf`, which is `0` over ℝ — see `C05x.max_real_partial`:
+    `M` bounds every element, and IS the maximum of the data as soon as one element is `≥ 0`); the closure then
+    returns `g` exactly at the positions with `x_p ≥ M − 1e-240` and `0` elsewhere. -/
+theorem maxAlong_vjp_real (bm : BMode) (H : Heap ℝ) (x y n : Nat) (g : ℝ) (wx : (H.val x).WF)
+    (hdx : (H.val x).dims = [n]) (hy : vAlong .max (H.val x) 0 = .ok (H.val y)) :
+    H.val y = ⟨[], [(H.val x).max]⟩ ∧
+    evalRule bm H ⟨[], [g]⟩ (.extAlongX x y 0)
+        = .ok ⟨[n], (H.val x).data.map (fun v => if (H.val x).max - θ ≤ v then g else 0)⟩ ∧
+    (∀ v ∈ (H.val x).data, v ≤ (H.val x).max) ∧
+    ((∃ v ∈ (H.val x).data, 0 ≤ v) → (H.val x).max ∈ (H.val x).data) := by
+  have hyv : H.val y = ⟨[], [(H.val x).max]⟩ := by
+    rw [along_rank1_fwd .max (H.val x) n wx hdx] at hy
+    injection hy with hy
+    rw [← hy]; rfl
+  obtain ⟨_, h2, _, h4, _⟩ := C05x.max_real_partial (H.val x)
+  exact ⟨hyv, (extAlong_max_select bm H x y n g _ wx hdx hyv h2).1, h2, h4⟩
+
+/-- **MinAlong(0) of a vector, forward and backward together** (the ℝ instance's `posInf` is `0`: `C05x.min_real_partial`) -/
+theorem minAlong_vjp_real (bm : BMode) (H : Heap ℝ) (x y n : Nat) (g : ℝ) (wx : (H.val x).WF)
+    (hdx : (H.val x).dims = [n]) (hy : vAlong .min (H.val x) 0 = .ok (H.val y)) :
+    H.val y = ⟨[], [(H.val x).min]⟩ ∧
+    evalRule bm H ⟨[], [g]⟩ (.extAlongX x y 0)
+        = .ok ⟨[n], (H.val x).data.map (fun v => if v ≤ (H.val x).min + θ then g else 0)⟩ ∧
+    (∀ v ∈ (H.val x).data, (H.val x).min ≤ v) ∧
+    ((∃ v ∈ (H.val x).data, v ≤ 0) → (H.val x).min ∈ (H.val x).data) := by
+  have hyv : H.val y = ⟨[], [(H.val x).min]⟩ := by
+    rw [along_rank1_fwd .min (H.val x) n wx hdx] at hy
+    injection hy with hy
+    rw [← hy]; rfl
+  obtain ⟨_, h2, _, h4, _⟩ := C05x.min_real_partial (H.val x)
+  exact ⟨hyv, (extAlong_min_select bm H x y n g _ wx hdx hyv h2).1, h2, h4⟩
+
+/-- non-vacuity (kernel-checked on `Int`, where the threshold is 0): node 0 = `[3, 7, 7, 1, 1]`, node 1 = its Max `7`,
+    node 2 = its Min `1`; upstream gradient `5`: both tied maxima receive `5`, both tied minima receive `5` -/
+def exHeap4 : Heap Int := #[⟨⟨[5], [3, 7, 7, 1, 1]⟩, {}⟩, ⟨⟨[], [7]⟩, {}⟩, ⟨⟨[], [1]⟩, {}⟩]
+
+example : vAlong .max (exHeap4.val 0) 0 = .ok (exHeap4.val 1) ∧ vAlong .min (exHeap4.val 0) 0 = .ok (exHeap4.val 2) ∧
+    evalRule .sum exHeap4 ⟨[], [5]⟩ (.extAlongX 0 1 0) = .ok ⟨[5], [0, 5, 5, 0, 0]⟩ ∧
+    evalRule .sum exHeap4 ⟨[], [5]⟩ (.extAlongX 0 2 0) = .ok ⟨[5], [0, 0, 0, 5, 5]⟩ := by decide
+
+/-- the general-rank theorem `rule_extAlong` on a matrix: MaxAlong(1) of `[[1,2,3],[4,5,6]]` = `[3, 6]`, upstream `[10, 20]` -/
+example : evalRule .sum (#[⟨⟨[2, 3], [1, 2, 3, 4, 5, 6]⟩, {}⟩, ⟨⟨[2], [3, 6]⟩, {}⟩] : Heap Int) ⟨[2], [10, 20]⟩ (.extAlongX 0 1 1)
+    = .ok ⟨[2, 3], [0, 0, 10, 0, 0, 20]⟩ := by decide
+
+/-! ## 3. VarAlong / StdAlong -/
+
+theorem rank1_ext (r : Tensor α) (n : Nat) (l : List α) (wr : r.WF) (hd : r.dims = [n]) (hl : l.length = n)
+    (h : ∀ p, p < n → r.at? [p] = l[p]?) : r = ⟨[n], l⟩ := by
+  obtain ⟨rd, rdata⟩ := r
+  simp only at hd
+  subst hd
+  congr 1
+  have hlen : rdata.length = n := by have := wr.1; simpa [prod] using this
+  apply List.ext_getElem?
+  intro p
+  by_cases hp : p < n
+  · rw [← h p hp, at?_rank1 n rdata p hp]
+  · rw [List.getElem?_eq_none (by omega), List.getElem?_eq_none (by omega)]
+
+theorem zipWith_replicate_map {β : Type} (f : β → β → β) (g : β) (F : β → β) : ∀ (l : List β),
+    List.zipWith f (List.replicate l.length g) (l.map F) = l.map (fun v => f g (F v))
+  | [] => rfl
+  | a :: l => by simp [List.replicate_succ, zipWith_replicate_map f g F l]
+
+section var
+variable [Scalar α]
+
+theorem wf_scalar (c : α) : (⟨[], [c]⟩ : Tensor α).WF := ⟨rfl, by simp⟩
+theorem wf_one (c : α) : (⟨[1], [c]⟩ : Tensor α).WF := ⟨rfl, by simp⟩
+
+/-- `reducerBroadcasted` of a scalar-shaped tensor to a vector: `n` copies -/
+theorem reducerBroadcasted_rank1 (g : α) (n : Nat) (hn : 0 < n) :
+    reducerBroadcasted ⟨[], [g]⟩ [n] 0 = .ok ⟨[n], List.replicate n g⟩ := by
+  obtain ⟨r, e, hd, wr, hget⟩ := C02x.reducerBroadcasted_get (⟨[], [g]⟩ : Tensor α) [n] 0
+    (by intro d hd; simp at hd; omega) (by simp) (wf_scalar g) rfl
+  rw [e]
+  congr 1
+  apply rank1_ext r n _ wr hd (by simp)
+  intro p hp
+  rw [hget [p] (.cons hp .nil)]
+  simp [at?_rank0, hp]
+
+theorem vUnSqueeze_scalar (c : α) : vUnSqueeze (⟨[], [c]⟩ : Tensor α) 0 = .ok ⟨[1], [c]⟩ := by
+  have hvu : validUnSqueeze (0 : Int) ([] : List Nat) = true := by simp [validUnSqueeze]
+  unfold vUnSqueeze
+  rw [if_pos hvu, Int.toNat_zero, C06.unsqueeze_data _ (wf_scalar c)]
+  rfl
+
+/-- arithmetic of a vector with a one-element tensor: the element is broadcast over the vector -/
+theorem arith_vec_one (o : Arith) (t : Tensor α) (n : Nat) (c : α) (wt : t.WF) (hd : t.dims = [n]) :
+    vArith o t ⟨[1], [c]⟩ = .ok ⟨[n], t.data.map (fun v => o.fn v c)⟩ := by
+  have hn : 0 < n := wt.2 n (by rw [hd]; simp)
+  have hl : t.data.length = n := by have := wt.1; rw [hd] at this; simpa [prod] using this
+  have hcompat : C03x.compat t.dims [1] = true := by rw [hd]; simp [C03x.compat, C03x.compatLE]
+  obtain ⟨r, er⟩ := (C03x.arith_total o t ⟨[1], [c]⟩ wt (wf_one c)).1 hcompat
+  obtain ⟨hrd, wr⟩ := C03x.arith_result_dims o _ _ r wt (wf_one c) er
+  have htd : targetBroadcastDims [n] [1] = [n] := by
+    have : (if n > 1 then n else 1) = n := by split <;> omega
+    simp [targetBroadcastDims, targetBroadcastLE, this]
+  have hrd' : r.dims = [n] := by rw [hrd, hd]; exact htd
+  rw [er]
+  congr 1
+  apply rank1_eq_map r n t.data _ wr hrd' hl
+  intro p hp
+  have hu' : Valid r.dims.reverse [p] := by rw [hrd']; exact .cons hp .nil
+  obtain ⟨x, y, hx, hy, hr⟩ := C03x.arith_get o _ _ r wt (wf_one c) er _ hu'
+  have e0 : ([p] : List Nat).reverse = [p] := rfl
+  rw [e0] at hr
+  rw [hr]
+  have hp0 : (if 1 = n then p else 0) = 0 := by split <;> omega
+  have hy' : y = c := by
+    rw [hrd'] at hy
+    simp only [List.reverse_cons, List.reverse_nil, List.nil_append, projLE, hp0] at hy
+    have : (⟨[1], [c]⟩ : Tensor α).at? [0] = some c := by simp [at?_rank1]
+    rw [this] at hy
+    injection hy with hy; exact hy.symm
+  have hx' : x = t.data[p]'(by omega) := by
+    rw [hrd', hd] at hx
+    simp only [List.reverse_cons, List.reverse_nil, List.nil_append, projLE, if_true] at hx
+    have hv : Valid t.dims [p] := by rw [hd]; exact .cons hp .nil
+    rw [C04x.at?_eq_data t hv, hd] at hx
+    have hp' : p < t.data.length := by omega
+    simp [val, List.getElem?_eq_getElem hp'] at hx
+    exact hx.symm
+  rw [hx', hy']
+
+/-- **`gradtrack.VarAlong`, rank-1 operand along dim 0** (the fibre is the whole vector; generic scalar domain): for `n = 1`
+    zeros (`x.Scale(0)`), otherwise `[g · (2/(n−1)) · (x_p − mean(x))]_p`. -/
+theorem rule_varAlong_rank1 (bm : BMode) (H : Heap α) (x n : Nat) (g : α) (wx : (H.val x).WF)
+    (hdx : (H.val x).dims = [n]) :
+    evalRule bm H ⟨[], [g]⟩ (.varAlongX x 0) =
+      if n = 1 then .ok (vScale (H.val x) Scalar.zero)
+      else .ok ⟨[n], (H.val x).data.map (fun v => Scalar.mul g
+        (Scalar.mul (Scalar.div Scalar.two (Scalar.ofNat (n - 1))) (Scalar.sub v (H.val x).mean)))⟩ := by
+  have hn : 0 < n := wx.2 n (by rw [hdx]; simp)
+  have hl : (H.val x).data.length = n := by have := wx.1; rw [hdx] at this; simpa [prod] using this
+  have hgd : (H.val x).dims.getD 0 0 = n := by rw [hdx]; rfl
+  have hself : (⟨[n], (H.val x).data⟩ : Tensor α) = H.val x := by rw [← hdx]
+  have e0 : ((0 : Nat) : Int) = 0 := rfl
+  simp only [evalRule, bind, Out.bind, hgd, e0]
+  rw [hdx, reducerBroadcasted_rank1 g n hn]
+  simp only []
+  by_cases h1 : n = 1
+  · rw [if_pos h1, if_pos h1]; rfl
+  · rw [if_neg h1, if_neg h1, along_rank1_fwd .mean (H.val x) n wx hdx]
+    simp only [Reducer.fn, hself]
+    rw [vUnSqueeze_scalar]
+    simp only []
+    rw [arith_vec_one .sub (H.val x) n _ wx hdx]
+    simp only []
+    have wgx : (vScale (⟨[n], (H.val x).data.map (fun v => Arith.sub.fn v (H.val x).mean)⟩ : Tensor α)
+        (Scalar.div Scalar.two (Scalar.ofNat (n - 1)))).WF := by
+      apply map_wf
+      exact ⟨by simp [prod, hl], by intro d hd; simp at hd; omega⟩
+    have wrep : (⟨[n], List.replicate n g⟩ : Tensor α).WF :=
+      ⟨by simp [prod], by intro d hd; simp at hd; omega⟩
+    rw [vArith_same .mul ⟨[n], List.replicate n g⟩ _ wrep wgx rfl]
+    congr 2
+    simp only [vScale, Tensor.map, List.map_map]
+    rw [← hl]
+    rw [zipWith_replicate_map]
+    rfl
+
+/-- **`gradtrack.StdAlong`, rank-1 operand along dim 0** (generic scalar domain), `s` the value stored in the forward result
+    `y`: for `n = 1` zeros, otherwise `[g · (1/(n−1)) · ((x_p − mean(x)) / s)]_p`. -/
+theorem rule_stdAlong_rank1 (bm : BMode) (H : Heap α) (x y n : Nat) (g s : α) (wx : (H.val x).WF)
+    (hdx : (H.val x).dims = [n]) (hy : H.val y = ⟨[], [s]⟩) :
+    evalRule bm H ⟨[], [g]⟩ (.stdAlongX x y 0) =
+      if n = 1 then .ok (vScale (H.val x) Scalar.zero)
+      else .ok ⟨[n], (H.val x).data.map (fun v => Scalar.mul g
+        (Scalar.mul (Scalar.div Scalar.one (Scalar.ofNat (n - 1))) (Scalar.div (Scalar.sub v (H.val x).mean) s)))⟩ := by
+  have hn : 0 < n := wx.2 n (by rw [hdx]; simp)
+  have hl : (H.val x).data.length = n := by have := wx.1; rw [hdx] at this; simpa [prod] using this
+  have hgd : (H.val x).dims.getD 0 0 = n := by rw [hdx]; rfl
+  have hself : (⟨[n], (H.val x).data⟩ : Tensor α) = H.val x := by rw [← hdx]
+  have e0 : ((0 : Nat) : Int) = 0 := rfl
+  simp only [evalRule, bind, Out.bind, hgd, hy, e0]
+  rw [hdx, reducerBroadcasted_rank1 g n hn]
+  simp only []
+  by_cases h1 : n = 1
+  · rw [if_pos h1, if_pos h1]; rfl
+  · rw [if_neg h1, if_neg h1, along_rank1_fwd .mean (H.val x) n wx hdx]
+    simp only [Reducer.fn, hself]
+    rw [vUnSqueeze_scalar]
+    simp only []
+    rw [arith_vec_one .sub (H.val x) n _ wx hdx]
+    simp only []
+    rw [vUnSqueeze_scalar]
+    simp only []
+    have w1 : (⟨[n], (H.val x).data.map (fun v => Arith.sub.fn v (H.val x).mean)⟩ : Tensor α).WF :=
+      ⟨by simp [prod, hl], by intro d hd; simp at hd; omega⟩
+    rw [arith_vec_one .div _ n s w1 rfl]
+    simp only []
+    have wgx : (vScale (⟨[n], ((H.val x).data.map (fun v => Arith.sub.fn v (H.val x).mean)).map
+        (fun v => Arith.div.fn v s)⟩ : Tensor α) (Scalar.div Scalar.one (Scalar.ofNat (n - 1)))).WF := by
+      apply map_wf
+      exact ⟨by simp [prod, hl], by intro d hd; simp at hd; omega⟩
+    have wrep : (⟨[n], List.replicate n g⟩ : Tensor α).WF :=
+      ⟨by simp [prod], by intro d hd; simp at hd; omega⟩
+    rw [vArith_same .mul ⟨[n], List.replicate n g⟩ _ wrep wgx rfl]
+    congr 2
+    simp only [vScale, Tensor.map, List.map_map]
+    rw [← hl]
+    rw [zipWith_replicate_map]
+    rfl
+
+end var
+
+/-! ### the calculus: sample variance and standard deviation of a vector `x : Fin n → ℝ` -/
+
+noncomputable def meanF {n : ℕ} (x : Fin n → ℝ) : ℝ := (∑ k, x k) / (n : ℝ)
+/-- unbiased sample variance (denominator `n − 1`) -/
+noncomputable def varF {n : ℕ} (x : Fin n → ℝ) : ℝ := (∑ k, (x k - meanF x) ^ 2) / ((n : ℝ) - 1)
+noncomputable def stdF {n : ℕ} (x : Fin n → ℝ) : ℝ := Real.sqrt (varF x)
+
+theorem sum_dev_zero {n : ℕ} (hn : 0 < n) (x : Fin n → ℝ) : ∑ k, (x k - meanF x) = 0 := by
+  have hne : (n : ℝ) ≠ 0 := by exact_mod_cast hn.ne'
+  rw [Finset.sum_sub_distrib, Finset.sum_const, Finset.card_univ, Fintype.card_fin, nsmul_eq_mul]
+  unfold meanF
+  field_simp
+  ring
+
+theorem d_meanF {n : ℕ} (x : Fin n → ℝ) (i : Fin n) :
+    HasDerivAt (fun t => meanF (Function.update x i t)) (1 / (n : ℝ)) (x i) := by
+  have h2 := (hasDerivAt_weighted_map id (fun _ => (1 : ℝ)) x (fun _ => 1) i (hasDerivAt_id (x i))).div_const (n : ℝ)
+  simp only [one_mul, id_eq] at h2
+  exact h2
+
+/-- **`∂ Var / ∂ x_i = 2 (x_i − mean) / (n − 1)`** -/
+theorem d_varF {n : ℕ} (hn : 0 < n) (x : Fin n → ℝ) (i : Fin n) :
+    HasDerivAt (fun t => varF (Function.update x i t)) (2 / ((n : ℝ) - 1) * (x i - meanF x)) (x i) := by
+  have hm := d_meanF x i
+  have hk : ∀ k ∈ (Finset.univ : Finset (Fin n)),
+      HasDerivAt (fun t => (Function.update x i t k - meanF (Function.update x i t)) ^ 2)
+        (2 * (x k - meanF x) * ((if k = i then 1 else 0) - 1 / (n : ℝ))) (x i) := by
+    intro k _
+    have hu : HasDerivAt (fun t => Function.update x i t k) (if k = i then 1 else 0) (x i) := by
+      by_cases hki : k = i
+      · subst hki; simp only [Function.update_self, if_true]; exact hasDerivAt_id _
+      · simp only [Function.update_of_ne hki, hki, if_false]; exact hasDerivAt_const _ _
+    have := (hu.sub hm).pow 2
+    refine this.congr_deriv ?_
+    simp only [Pi.sub_apply, Function.update_eq_self]
+    norm_num
+  have hs := (HasDerivAt.fun_sum hk).div_const ((n : ℝ) - 1)
+  unfold varF
+  refine hs.congr_deriv ?_
+  have e : ∑ k, 2 * (x k - meanF x) * ((if k = i then (1 : ℝ) else 0) - 1 / (n : ℝ)) = 2 * (x i - meanF x) := by
+    have h1 : ∀ k, 2 * (x k - meanF x) * ((if k = i then (1 : ℝ) else 0) - 1 / (n : ℝ))
+        = (if k = i then 2 * (x k - meanF x) else 0) - (2 / (n : ℝ)) * (x k - meanF x) := by
+      intro k
+      by_cases h : k = i
+      · simp only [h, if_true]; ring
+      · simp only [h, if_false]; ring
+    simp only [h1, Finset.sum_sub_distrib, Finset.sum_ite_eq', Finset.mem_univ, if_true, ← Finset.mul_sum,
+      sum_dev_zero hn x]
+    ring
+  rw [e]; ring
+
+/-- **`∂ Std / ∂ x_i = (x_i − mean) / ((n − 1) · Std)`** where the variance does not vanish -/
+theorem d_stdF {n : ℕ} (hn : 0 < n) (x : Fin n → ℝ) (i : Fin n) (hv : varF x ≠ 0) :
+    HasDerivAt (fun t => stdF (Function.update x i t)) (1 / ((n : ℝ) - 1) * ((x i - meanF x) / stdF x)) (x i) := by
+  have h := (d_varF hn x i).sqrt (by simpa only [Function.update_eq_self] using hv)
+  unfold stdF
+  refine h.congr_deriv ?_
+  simp only [Function.update_eq_self]
+  rcases eq_or_ne (Real.sqrt (varF x)) 0 with h0 | h0
+  · simp [h0]
+  · field_simp
+
+/-! ### the Model's `Mean` / `Var` / `Std` of the vector tensor `⟨[n], List.ofFn x⟩` are these functions -/
+
+theorem wf_ofFn {n : ℕ} (hn : 0 < n) (x : Fin n → ℝ) : (⟨[n], List.ofFn x⟩ : Tensor ℝ).WF :=
+  ⟨by simp [prod], by intro d hd; simp at hd; omega⟩
+
+theorem mean_ofFn {n : ℕ} (x : Fin n → ℝ) : (⟨[n], List.ofFn x⟩ : Tensor ℝ).mean = meanF x := by
+  rw [C05x.mean_real]
+  simp [prod, List.sum_ofFn, meanF]
+
+theorem var_ofFn {n : ℕ} (hn : 2 ≤ n) (x : Fin n → ℝ) : (⟨[n], List.ofFn x⟩ : Tensor ℝ).var = varF x := by
+  rw [C05.var_real, if_pos (by simp [prod]; omega), mean_ofFn]
+  simp [prod, List.map_ofFn, List.sum_ofFn, varF, Function.comp_def]
+
+theorem std_ofFn {n : ℕ} (hn : 2 ≤ n) (x : Fin n → ℝ) : (⟨[n], List.ofFn x⟩ : Tensor ℝ).std = stdF x := by
+  rw [(C05x.std_real _).1, var_ofFn hn x]; rfl
+
+/-- **VarAlong(0) of a vector of length `n ≥ 2` over ℝ: the rule is the gradient of the sample variance, times `g`.**
+    The closure returns `[g · 2 (x_i − mean) / (n − 1)]_i`, and that entry is the partial derivative with respect to `x_i`
+    of `g · Var(x)`, `Var` being the Model's own forward function `Tensor.var` on the vector. -/
+theorem varAlong_vjp_real (bm : BMode) (H : Heap ℝ) (xn n : Nat) (x : Fin n → ℝ) (g : ℝ) (hn : 2 ≤ n)
+    (hx : H.val xn = ⟨[n], List.ofFn x⟩) :
+    evalRule bm H ⟨[], [g]⟩ (.varAlongX xn 0)
+        = .ok ⟨[n], List.ofFn (fun i => g * (2 / ((n : ℝ) - 1) * (x i - meanF x)))⟩ ∧
+    ∀ i, HasDerivAt (fun t => g * (⟨[n], List.ofFn (Function.update x i t)⟩ : Tensor ℝ).var)
+      (g * (2 / ((n : ℝ) - 1) * (x i - meanF x))) (x i) := by
+  have hn0 : 0 < n := by omega
+  have wx : (H.val xn).WF := by rw [hx]; exact wf_ofFn hn0 x
+  refine ⟨?_, ?_⟩
+  · rw [rule_varAlong_rank1 bm H xn n g wx (by rw [hx]), if_neg (by omega), hx, mean_ofFn]
+    congr 2
+    rw [List.map_ofFn]
+    congr 1
+    funext i
+    have hc : ((n - 1 : ℕ) : ℝ) = (n : ℝ) - 1 := by rw [Nat.cast_sub (by omega)]; simp
+    simp [hc]
+  · intro i
+    have hf : (fun t => g * (⟨[n], List.ofFn (Function.update x i t)⟩ : Tensor ℝ).var)
+        = fun t => g * varF (Function.update x i t) := by
+      funext t; rw [var_ofFn hn]
+    rw [hf]
+    exact (d_varF hn0 x i).const_mul g
+
+/-- **StdAlong(0) of a vector of length `n ≥ 2` over ℝ: the rule is the gradient of the sample standard deviation, times
+    `g`** — `y` holding the forward value `Std(x)`. The closure returns `[g · (x_i − mean) / ((n − 1) · Std(x))]_i`
+    (computed as `g · (1/(n−1)) · ((x_i − mean)/Std)`), and where `Var(x) ≠ 0` that entry is the partial derivative with
+    respect to `x_i` of `g · Std(x)`, `Std` being the Model's `Tensor.std`. (For a constant vector `Std = 0`, the
+    function is not differentiable and the closure divides by zero: over ℝ that gives 0, over float64 NaN.) -/
+theorem stdAlong_vjp_real (bm : BMode) (H : Heap ℝ) (xn yn n : Nat) (x : Fin n → ℝ) (g : ℝ) (hn : 2 ≤ n)
+    (hx : H.val xn = ⟨[n], List.ofFn x⟩) (hy : vAlong .std (H.val xn) 0 = .ok (H.val yn)) :
+    H.val yn = ⟨[], [stdF x]⟩ ∧
+    evalRule bm H ⟨[], [g]⟩ (.stdAlongX xn yn 0)
+        = .ok ⟨[n], List.ofFn (fun i => g * (1 / ((n : ℝ) - 1) * ((x i - meanF x) / stdF x)))⟩ ∧
+    (varF x ≠ 0 → ∀ i, HasDerivAt (fun t => g * (⟨[n], List.ofFn (Function.update x i t)⟩ : Tensor ℝ).std)
+      (g * (1 / ((n : ℝ) - 1) * ((x i - meanF x) / stdF x))) (x i)) := by
+  have hn0 : 0 < n := by omega
+  have wx : (H.val xn).WF := by rw [hx]; exact wf_ofFn hn0 x
+  have hyv : H.val yn = ⟨[], [stdF x]⟩ := by
+    rw [along_rank1_fwd .std (H.val xn) n wx (by rw [hx])] at hy
+    injection hy with hy
+    rw [← hy, hx]
+    simp only [Reducer.fn, std_ofFn hn x]
+  refine ⟨hyv, ?_, ?_⟩
+  · rw [rule_stdAlong_rank1 bm H xn yn n g (stdF x) wx (by rw [hx]) hyv, if_neg (by omega), hx, mean_ofFn]
+    congr 2
+    rw [List.map_ofFn]
+    congr 1
+    funext i
+    have hc : ((n - 1 : ℕ) : ℝ) = (n : ℝ) - 1 := by rw [Nat.cast_sub (by omega)]; simp
+    simp [hc]
+  · intro hv i
+    have hf : (fun t => g * (⟨[n], List.ofFn (Function.update x i t)⟩ : Tensor ℝ).std)
+        = fun t => g * stdF (Function.update x i t) := by
+      funext t; rw [std_ofFn hn]
+    rw [hf]
+    exact (d_stdF hn0 x i hv).const_mul g
+
+/-- **the `n = 1` branch**: the closure of VarAlong / StdAlong on a one-element vector returns `[0]`, and indeed the
+    Model's `Var` / `Std` of a one-element vector are constantly `0`, so their derivative is `0` -/
+theorem varStdAlong_one_real (bm : BMode) (H : Heap ℝ) (xn yn : Nat) (a g s : ℝ) (hx : H.val xn = ⟨[1], [a]⟩)
+    (hy : H.val yn = ⟨[], [s]⟩) :
+    evalRule bm H ⟨[], [g]⟩ (.varAlongX xn 0) = .ok ⟨[1], [0]⟩ ∧
+    evalRule bm H ⟨[], [g]⟩ (.stdAlongX xn yn 0) = .ok ⟨[1], [0]⟩ ∧
+    HasDerivAt (fun t => g * (⟨[1], [t]⟩ : Tensor ℝ).var) 0 a ∧
+    HasDerivAt (fun t => g * (⟨[1], [t]⟩ : Tensor ℝ).std) 0 a := by
+  have wx : (H.val xn).WF := by rw [hx]; exact wf_one a
+  have hv : ∀ t : ℝ, (⟨[1], [t]⟩ : Tensor ℝ).var = 0 ∧ (⟨[1], [t]⟩ : Tensor ℝ).std = 0 :=
+    fun t => (C05x.std_real _).2.2.2.2 (by simp [prod])
+  refine ⟨?_, ?_, ?_, ?_⟩
+  · rw [rule_varAlong_rank1 bm H xn 1 g wx (by rw [hx]), if_pos rfl, hx]
+    simp [vScale, Tensor.map]
+  · rw [rule_stdAlong_rank1 bm H xn yn 1 g s wx (by rw [hx]) hy, if_pos rfl, hx]
+    simp [vScale, Tensor.map]
+  · have : (fun t => g * (⟨[1], [t]⟩ : Tensor ℝ).var) = fun _ => (0 : ℝ) := by funext t; rw [(hv t).1, mul_zero]
+    rw [this]; exact hasDerivAt_const _ _
+  · have : (fun t => g * (⟨[1], [t]⟩ : Tensor ℝ).std) = fun _ => (0 : ℝ) := by funext t; rw [(hv t).2, mul_zero]
+    rw [this]; exact hasDerivAt_const _ _
+
+/-- non-vacuity (kernel-checked on `Int`): node 0 = `[1, 3, 5]` (mean 3, `2/(n−1) = 1`), node 1 = `[7]` (the `n = 1`
+    branch), node 2 = `[1, 5]` (mean 3, `1/(n−1) = 1`), node 3 = a scalar `2` standing in for the forward Std value (the
+    `Int` instance has no square root); upstream gradient `2` -/
+def exHeap3 : Heap Int :=
+  #[⟨⟨[3], [1, 3, 5]⟩, {}⟩, ⟨⟨[1], [7]⟩, {}⟩, ⟨⟨[2], [1, 5]⟩, {}⟩, ⟨⟨[], [2]⟩, {}⟩]
+
+example : evalRule .sum exHeap3 ⟨[], [2]⟩ (.varAlongX 0 0) = .ok ⟨[3], [-4, 0, 4]⟩ ∧
+    evalRule .sum exHeap3 ⟨[], [2]⟩ (.varAlongX 1 0) = .ok ⟨[1], [0]⟩ ∧
+    evalRule .sum exHeap3 ⟨[], [2]⟩ (.stdAlongX 2 3 0) = .ok ⟨[2], [-2, 2]⟩ ∧
+    evalRule .sum exHeap3 ⟨[], [2]⟩ (.stdAlongX 1 3 0) = .ok ⟨[1], [0]⟩ := by decide
+
 end C02y
 end Qeep
